@@ -298,7 +298,7 @@ func RunCase(seed int64, p *Profile, idx int) *Result {
 	step := 0
 	for ; step < p.MaxSteps; step++ {
 		lo, _ := w.Heights()
-		if lo > cfg.MaxH {
+		if lo > cfg.MaxH || w.Aborted {
 			break
 		}
 		kind := w.randomStep(s, adv, step)
@@ -310,7 +310,7 @@ func RunCase(seed int64, p *Profile, idx int) *Result {
 	res.Steps = step
 	w.DrainPending()
 	w.SplitHandoff = false
-	if p.Tail {
+	if p.Tail && !w.Aborted {
 		RunTail(w, adv, p, res)
 	}
 	w.Mon.Finish()
